@@ -265,15 +265,40 @@ def run(cx, rep):
         rep.anchor_missing("C01.3", "escape_regex")
     else:
         t = F.hir[er[0]]
-        chain = []
+        chain = []     # (node, char, replacement) in pre-order: the outermost call (last applied) comes first
+        table = None   # or: the characters of a table that is folded / looped over, in application order
+        table_ok = True
         for n in walk(t["body"]):
             if n["k"] == "MethodCall" and n["method"] == "replace":
                 a0 = n["args"][0]
-                ch = a0.get("v") if a0["k"] == "Lit" else None
-                rp = n["args"][1].get("v") if n["args"][1]["k"] == "Lit" else None
-                chain.append((n, ch, rp))
-        # walk() is pre-order: the outermost call (last applied) comes first
-        chars = [c for _, c, _ in chain]
+                if a0["k"] == "Lit":
+                    rp = n["args"][1].get("v") if n["args"][1]["k"] == "Lit" else None
+                    chain.append((n, a0.get("v"), rp))
+                    continue
+                # table-driven form: `acc.replace(*c, &format!("\\{}", c))` for each c of a constant character table
+                ev = set(locals_in(a0))
+                seqs = []
+                for x in walk(t["body"]):
+                    if x["k"] == "Path" and x.get("res") == "def" and (x.get("defkind") or "").startswith("Const") and "char" in (x.get("ty") or "") and x.get("def") in F.hir:
+                        seqs.append(F.hir[x["def"]]["body"])
+                    elif x["k"] == "Array" and "char" in (x.get("ty") or ""):
+                        seqs.append(x)
+                if len(ev) == 1 and len(seqs) == 1 and seqs[0]["k"] == "Array" and all(e["k"] == "Lit" and e.get("lit") == "char" for e in seqs[0]["es"]):
+                    table = [e["v"] for e in seqs[0]["es"]]
+                    # replacement: format template = one literal byte `\`, one default placeholder, end; its only
+                    # argument is the same element
+                    tmpl = [x.get("v") for x in walk(n["args"][1]) if x["k"] == "Lit" and x.get("lit") == "bytes"]
+                    rl = set(locals_in(n["args"][1])) - {"args"}
+                    table_ok = tmpl == ["015cc000"] and rl == ev
+                else:
+                    table_ok = False
+        if table is not None and not chain:
+            chars = list(reversed(table))
+            rep.ob("C01.3", "table/replacement", table_ok, "each table character must be replaced by a backslash followed by the character itself", F.fns[er[0]].loc())
+        else:
+            chars = [c for _, c, _ in chain]
+            if table is not None or not table_ok:
+                rep.ob("C01.3", "form", False, "escape_regex mixes literal and computed replacements; cannot be decided", F.fns[er[0]].loc())
         applied_first = chars[-1] if chars else None
         rep.ob("C01.3", "covers-syntax", REGEX_SYNTAX <= set(c for c in chars if c), "escape_regex does not escape %s: such a character in a template literal part changes what the validator accepts" % sorted(REGEX_SYNTAX - set(c for c in chars if c)),
                F.fns[er[0]].loc(), sample={"escaped": "".join(c for c in chars if c)})
